@@ -169,4 +169,7 @@ def _adjust_modulus_offset(
             results.append(res)
             prog.increment()
 
-    return sorted(results, key=lambda _: _[0])
+    # The names of the options are included in the key so that the order of
+    # candidates with equal pseudo chi-squared values does not depend on the
+    # order in which the worker processes finish.
+    return sorted(results, key=lambda _: (_[0], _[2], _[3], _[4]))
